@@ -53,6 +53,30 @@ def build(spec):
             txs.append(twin)
             big = max(txs, key=lambda x: sum(o.value for o in x.outs))
             txs.append(Tx(1, [TxIn(rbytes(rng, 32), 0, b"", 0)], [TxOut(sum(o.value for o in big.outs), b"\x51")], 0))
+        if kind == "size-boundary" and i == nb // 2:
+            # the biggest transaction by size has a count or a length exactly on a CompactSize width boundary, and a runner-up that is
+            # one or two bytes smaller / bigger comes before or after it (the size must be exact, not only "big")
+            B = spec["boundary"]
+            dim = spec["dim"]
+            if dim == "spk":
+                x = Tx(1, [TxIn(rbytes(rng, 32), 0, b"", 0)], [TxOut(5, b"\x6a" + rbytes(rng, B - 1))], 0)
+            elif dim == "sig":
+                x = Tx(1, [TxIn(rbytes(rng, 32), 0, rbytes(rng, B), 0)], [TxOut(5, b"\x51")], 0)
+            elif dim == "nout":
+                x = Tx(1, [TxIn(rbytes(rng, 32), 0, b"", 0)], [TxOut(k, b"\x51") for k in range(B)], 0)
+            else:
+                x = Tx(1, [TxIn(rbytes(rng, 32), k, b"", 0) for k in range(B)], [TxOut(5, b"\x51")], 0)
+            if spec.get("segwit"):
+                x = Tx(x.version, [TxIn(i_.prev_txid, i_.prev_index, i_.script_sig, i_.sequence, [rbytes(rng, 5000)]) for i_ in x.ins], x.outs, 0, segwit=True)
+            target = len(x.ser_nowit()) + spec["delta"]
+            # runner-up: one input, one output whose script makes up the rest (10 + 41 + 9 bytes of frame, 3-byte length prefix)
+            filler = max(300, target - 10 - 41 - 9 - 3 + 1)
+            y = Tx(1, [TxIn(rbytes(rng, 32), 0, b"", 0)], [TxOut(7, b"\x6a" + rbytes(rng, filler - 1))], 0)
+            adj = target - len(y.ser_nowit())
+            if adj and len(y.outs[0].script) + adj > 300:
+                y = Tx(1, y.ins, [TxOut(7, b"\x6a" + rbytes(rng, len(y.outs[0].script) + adj - 1))], 0)
+            pair = [x, y] if spec.get("first", "x") == "x" else [y, x]
+            txs.extend(pair)
         if kind == "multi-coinbase" or rng.random() < 0.2:
             # further coinbase-shaped transactions (single null input) anywhere in the block
             for _ in range(rng.randint(1, 2)):
@@ -171,6 +195,12 @@ def plan(chk):
                     n += 1
                     coin = COIN_NAMES[(n + ci) % 8]
                     specs.append(dict(case="chain", coin=coin, seed=chk.seed, n=n, kind=kind, profile=profile, blocks=rng.choice([5, 8, 16])))
+            # biggest-by-size transaction on a CompactSize boundary
+            for j, B in enumerate([252, 253, 254, 0xFFFE, 0xFFFF, 0x10000] if chk.thorough or rep else [253, 0xFFFF, 0x10000]):
+                for dim in (["spk", "sig", "nout", "nin"] if chk.thorough else [["spk", "nin"], ["sig", "nout"], ["spk", "sig"]][(j + rep) % 3]):
+                    n += 1
+                    specs.append(dict(case="chain", coin=COIN_NAMES[n % 8], seed=chk.seed, n=n, kind="size-boundary", profile=profile, blocks=4, boundary=B, dim=dim,
+                                      delta=rng.choice([-2, -1, 1, 2]), first=rng.choice(["x", "y"]), segwit=(n % 3 == 0)))
             # halving boundaries
             for k in ([1, 2, 3, 10, 32, 33, 63, 64, 65, 100] if chk.thorough else [1, 33, 63, 64, 70]):
                 n += 1
